@@ -217,6 +217,8 @@ def execute(sc):
         # in __init__, so a second run on the same controller (or the second leg of a split run) continues / restarts the stream
         if ident.get('initial_guess_random') and (site in ('rerun', 'split_run')):
             res.violate('C19', 'rng_stream_of_random_initial_guess', 'Sweeper.__init__', detail, ident={'root': 'random_state_created_once_per_sweeper'})
+        elif ident.get('k_dependent_qi') and site in ('rerun', 'split_run'):
+            res.violate('C19', 'sweep_dependent_preconditioner_state', 'Sweeper.updateVariableCoeffs', detail, ident={'root': 'k_dependent_QI_left_at_last_sweep_index'})
         elif ident.get('global_rng_in_transfer'):
             res.violate('C19', 'space_transfer_depends_on_global_numpy_rng', 'transfer_helper.interpolation_matrix_1d', detail, ident={'root': 'scipy_barycentric_random_permutation'})
         else:
@@ -225,7 +227,7 @@ def execute(sc):
     def compare(tag, got, ref, ci, what='run'):
         guess = cfgs[ci]['sweeper']['params'].get('initial_guess', 'spread')
         tf = cfgs[ci].get('transfer') or {}
-        ident = {'initial_guess_random': guess == 'random', 'op': tag, 'global_rng_in_transfer': tf.get('class') == 'mesh_to_mesh' and tf.get('params', {}).get('iorder', 0) >= 6}
+        ident = {'initial_guess_random': guess == 'random', 'op': tag, 'k_dependent_qi': cfgs[ci]['sweeper']['params'].get('QI') in ('MIN-SR-FLEX', 'MIN_SR_FLEX'), 'global_rng_in_transfer': tf.get('class') == 'mesh_to_mesh' and tf.get('params', {}).get('iorder', 0) >= 6}
         if got['exc'] != ref['exc']:
             V('outcome_differs', what, f'{tag}: outcome {got["exc"]} vs {ref["exc"]} when run alone in a fresh process', **ident)
             return
@@ -325,7 +327,7 @@ def execute(sc):
             res.probe('split_fresh_controller' if fresh else 'split_same_controller')
             ran[cid] += 1 if fresh else 2
             tf = cfg.get('transfer') or {}
-            ident = {'initial_guess_random': cfg['sweeper']['params'].get('initial_guess') == 'random', 'op': 'split', 'global_rng_in_transfer': tf.get('class') == 'mesh_to_mesh' and tf.get('params', {}).get('iorder', 0) >= 6}
+            ident = {'initial_guess_random': cfg['sweeper']['params'].get('initial_guess') == 'random', 'op': 'split', 'k_dependent_qi': cfg['sweeper']['params'].get('QI') in ('MIN-SR-FLEX', 'MIN_SR_FLEX'), 'global_rng_in_transfer': tf.get('class') == 'mesh_to_mesh' and tf.get('params', {}).get('iorder', 0) >= 6}
             if b['exc'] is not None or ref['exc'] is not None:
                 if b['exc'] != ref['exc']:
                     V('outcome_differs', 'split_run', f'op {i}: split run outcome {b["exc"]} vs uninterrupted {ref["exc"]}', **ident)
